@@ -989,8 +989,37 @@ def gen_py_project(seed, rename=None):
         tgt_level = levels[len(levels) - dots]
         if tgt_level in util_levels:
             leaf_files.append((f"{deepest}/leaf{dots}.py", dots, tgt_level + "/util.py"))
-    lib_files = LIB_FILES + deep_files + [lf for lf, _, _ in leaf_files]
+    # same-name re-export chains: mi.py defines a variable, a function and a class; mr.py re-exports some of them under the SAME
+    # names (`from mi import ifn`), mr2.py re-exports from mr (two intermediate modules). The importer is generated TWICE with the
+    # same plan under two file names, one sorting before and one after the re-exporting modules (lian walks the units in reverse path
+    # order, so one of them is analysed before mr.py and one after): the two must bind identically.
+    chain_names = [n for n in ("iv", "ifn", "IC") if rng.random() < 0.75] or ["ifn"]
+    chain2 = [n for n in chain_names if rng.random() < 0.6]
+    pair_files = ["a_user.py", "z_user.py"]
+    lib_files = LIB_FILES + deep_files + [lf for lf, _, _ in leaf_files] + ["mi.py", "mr.py"] + (["mr2.py"] if chain2 else []) + pair_files
+    plans["mi.py"] = {"vars": ["iv"], "funs": ["ifn"], "classes": ["IC"]}
+    plans["mr.py"] = {"vars": [], "funs": [], "classes": [],
+                      "imports": [{"form": "from", "module": "mi", "names": [(n, None)], "binds": [n], "kind": "from-import",
+                                   "target": {n: ("mi.py", n)}} for n in chain_names]}
+    if chain2:
+        plans["mr2.py"] = {"vars": [], "funs": [], "classes": [],
+                           "imports": [{"form": "from", "module": "mr", "names": [(n, None)], "binds": [n],
+                                        "kind": "from-import(same-name-re-export-chain-1)", "target": {n: ("mr.py", n)}} for n in chain2]}
+    user_imports = []
+    for n in chain_names:
+        hops = 2 if (n in chain2 and rng.random() < 0.6) else 1
+        alias = ("u_" + n) if rng.random() < 0.3 else None
+        user_imports.append({"form": "from", "module": "mr2" if hops == 2 else "mr", "names": [(n, alias)], "binds": [alias or n],
+                             "kind": f"from-import{'-alias' if alias else ''}(same-name-re-export-chain-{hops})",
+                             "target": {alias or n: ("mr2.py" if hops == 2 else "mr.py", n)}})
+    for pf in pair_files:
+        binds = [i_["binds"][0] for i_ in user_imports]
+        plans[pf] = {"vars": [], "funs": ["probe"], "classes": [], "must_read": binds,
+                     "must_call": [i_["binds"][0] for i_ in user_imports if i_["names"][0][0] == "ifn"],
+                     "imports": [dict(i_, target=dict(i_["target"])) for i_ in user_imports]}
     for path in lib_files:
+        if path in ("mi.py", "mr.py", "mr2.py") or path in pair_files:
+            continue
         if path.endswith("/util.py"):
             plans[path] = {"vars": ["uv"], "funs": ["fu"], "classes": []}
             continue
@@ -1187,6 +1216,7 @@ def gen_py_project(seed, rename=None):
                 ln = g.emit(0, f'{g.nm(ctag, b)}("{ctag}")')
                 m["calls"][ctag] = {"file": "main.py", "name": g.rename.get(ctag, b), "line": ln, "scope": msid}
     g.end()
+    m["importer_pair"] = pair_files
     return g.files, json.loads(json.dumps(m))
 
 
